@@ -49,6 +49,10 @@ func (w *World) errNilGuard(f *Fn, n ast.Node, callee types.Object) bool {
 			continue
 		}
 		// nearest definition preceding the guard: the if-init or the statement before
+		f := f
+		if g.Fn != nil {
+			f = g.Fn
+		}
 		for _, d := range w.DefsOf(f, v) {
 			if w.isCallTo(d, callee) {
 				// definition must be positioned before the guard and after any other definition… approximate: the guard's own if-init or the closest def
@@ -468,8 +472,11 @@ func ruleR09_1(c *Check) {
 				if as, ok := n.(*ast.AssignStmt); ok && len(as.Rhs) == 1 {
 					if id, ok := unparen(as.Rhs[0]).(*ast.Ident); ok && w.Use(id) == errTrunc {
 						for _, g := range w.Guards(f, as) {
-							if b, ok := g.Cond.(*ast.BinaryExpr); ok && b.Op == token.EQL && g.Val && w.mentions(b.Y, w.Obj("io.EOF")) {
-								okv = true
+							// `err == io.EOF`, possibly one disjunct of several (… || err == io.ErrUnexpectedEOF)
+							for _, d := range flatten(g.Cond, token.LOR) {
+								if b, ok := unparen(d).(*ast.BinaryExpr); ok && b.Op == token.EQL && g.Val && (w.mentions(b.Y, w.Obj("io.EOF")) || w.mentions(b.X, w.Obj("io.EOF"))) {
+									okv = true
+								}
 							}
 						}
 					}
@@ -697,7 +704,131 @@ func ruleR09_5(c *Check) {
 	r.ExitsNeed(w.F("badger.logFile.bootstrap"), "zeroNextEntry", z, 0, exitSuccess)
 }
 
+func ruleR09_6(c *Check) {
+	w := c.W
+	r := c.Rule("R09.6", "E6", 1, "ReplayManifestFile: inside the record loop, an error is returned for a record that fails its checksum only when that record is not the tail of the file (the decision looks at the file size / the reader's position); a failing tail record — a partially written change set whose remainder reads as zeros — ends replay like a short read does",
+		"a torn newest change set whose missing bytes read back as zeros has an intact length but a wrong checksum; returning errBadChecksum for it makes Open fail instead of recovering the change sets before it")
+	f := w.F("badger.ReplayManifestFile")
+	bad := w.Obj("badger.errBadChecksum")
+	n := 0
+	for _, s := range f.Sites(selReturn()) {
+		rs := s.(*ast.ReturnStmt)
+		if !insideLoop(w, f, rs) || len(rs.Results) != 3 {
+			continue
+		}
+		// the return taken on a checksum mismatch: under a guard that compares a crc32 checksum
+		isCRC := false
+		tail := false
+		for _, g := range w.Guards(f, rs) {
+			if g.Implicit {
+				continue
+			}
+			ast.Inspect(g.Cond, func(m ast.Node) bool {
+				if call, ok := m.(*ast.CallExpr); ok {
+					if fn, ok := w.Callee(call).(*types.Func); ok && fn.Pkg() != nil {
+						if fn.Pkg().Path() == "hash/crc32" {
+							isCRC = true
+						}
+						if fn.Name() == "Size" && fn.Pkg().Path() == "io/fs" {
+							tail = true
+						}
+					}
+				}
+				return true
+			})
+		}
+		if !isCRC && !w.mentions(rs, bad) {
+			continue
+		}
+		n++
+		r.Check(tail, f, "checksum mismatch on the tail record", rs, "a change set that fails its checksum is reported as an error even when it is the last record of the file: a torn, zero-filled newest change set makes Open fail")
+	}
+	r.Exists(n >= 1, f, "checksum-mismatch return found", nil, "no return under the checksum comparison in the replay loop")
+}
+
+func ruleR09_7(c *Check) {
+	w := c.W
+	r := c.Rule("R09.7", "E6", 1, "ReplayManifestFile: a change set whose recorded length does not fit in the file (any comparison of the decoded length with the file size or with what remains of it) ends replay with a break, never with an error; if the body is allocated from that length, such a bound dominates the allocation",
+		"a torn newest change set has an intact length and a missing payload: it extends past the end of the file by definition; an error here makes Open fail on a torn tail (seen when the change set is longer than everything before it, e.g. the first L0→Lbase compaction of a fresh DB)")
+	f := w.F("badger.ReplayManifestFile")
+	var lengthVar *types.Var
+	f.walk(func(n ast.Node) bool {
+		as, ok := n.(*ast.AssignStmt)
+		if !ok || len(as.Lhs) != 1 || len(as.Rhs) != 1 || !insideLoop(w, f, as) {
+			return true
+		}
+		if call, ok := unparen(as.Rhs[0]).(*ast.CallExpr); ok {
+			if fn, ok := w.Callee(call).(*types.Func); ok && len(call.Args) == 1 && isU32Decode(fn) {
+				if id, ok := as.Lhs[0].(*ast.Ident); ok && lengthVar == nil {
+					lengthVar, _ = w.Use(id).(*types.Var)
+				}
+			}
+		}
+		return true
+	})
+	if lengthVar == nil {
+		panic(anchorError{"decoded change-set length in ReplayManifestFile"})
+	}
+	isSizeCmp := func(cond ast.Expr) bool {
+		mentionsLen, mentionsSize := false, false
+		ast.Inspect(cond, func(m ast.Node) bool {
+			switch x := m.(type) {
+			case *ast.Ident:
+				if w.Use(x) == types.Object(lengthVar) {
+					mentionsLen = true
+				} else if v, ok := w.Use(x).(*types.Var); ok && !v.IsField() {
+					for _, d := range w.DefsOf(f, v) {
+						if w.mentions(d, lengthVar) {
+							mentionsLen = true
+						}
+						ast.Inspect(d, func(k ast.Node) bool {
+							if call, ok := k.(*ast.CallExpr); ok {
+								if fn, ok := w.Callee(call).(*types.Func); ok && fn.Name() == "Size" && fn.Pkg() != nil && fn.Pkg().Path() == "io/fs" {
+									mentionsSize = true
+								}
+							}
+							return true
+						})
+					}
+				}
+			case *ast.CallExpr:
+				if fn, ok := w.Callee(x).(*types.Func); ok && fn.Name() == "Size" && fn.Pkg() != nil && fn.Pkg().Path() == "io/fs" {
+					mentionsSize = true
+				}
+			}
+			return true
+		})
+		return mentionsLen && mentionsSize
+	}
+	n := 0
+	var bounds []ast.Node
+	f.walk(func(nd ast.Node) bool {
+		is, ok := nd.(*ast.IfStmt)
+		if !ok || !insideLoop(w, f, is) || !isSizeCmp(is.Cond) {
+			return true
+		}
+		n++
+		bounds = append(bounds, is.Cond)
+		last := is.Body.List[len(is.Body.List)-1]
+		b, isBreak := last.(*ast.BranchStmt)
+		r.Check(isBreak && b.Tok == token.BREAK && len(is.Body.List) == 1, f, "a change set that does not fit in the file ends replay", is.Cond, "a length that exceeds the file is answered with something other than `break` (an error makes Open fail on a torn tail)")
+		return true
+	})
+	// allocation from the decoded length is bounded
+	for _, s := range f.Sites(selPred("make(length)", func(w *World, fn *Fn, nd ast.Node) bool {
+		call, ok := nd.(*ast.CallExpr)
+		return ok && isBuiltin(w, call, "make") && len(call.Args) >= 2 && w.mentions(call.Args[1], lengthVar)
+	})) {
+		n++
+		res := f.Dominated(Occ{V: f.G().VertexOf(s), Node: s}, occsOf(f, bounds))
+		r.Order(res, f, "allocation bounded by the file size", s, "the body buffer is allocated from the decoded length without a bound against the file size")
+	}
+	r.Exists(n >= 1, f, "length handling found", nil, "neither a bound nor an allocation from the decoded length")
+}
+
 func propC09(c *Check) {
+	ruleR09_6(c)
+	ruleR09_7(c)
 	ruleR09_1(c)
 	ruleR09_2(c)
 	ruleR09_3(c)
@@ -1023,9 +1154,9 @@ func ruleR17_2(c *Check) {
 			}
 			if lo == 0 && hi == 4 {
 				// uint32(len(buf))
-				ast.Inspect(call.Args[1], func(n ast.Node) bool {
+				ast.Inspect(w.from(call.Args[1]), func(n ast.Node) bool {
 					if c2, ok := n.(*ast.CallExpr); ok {
-						if id, ok := unparen(c2.Fun).(*ast.Ident); ok && id.Name == "len" && len(c2.Args) == 1 {
+						if isBuiltin(w, c2, "len") && len(c2.Args) == 1 {
 							if bid, ok := unparen(c2.Args[0]).(*ast.Ident); ok {
 								body = w.Use(bid)
 								lenOK = true
@@ -1036,7 +1167,7 @@ func ruleR17_2(c *Check) {
 				})
 			}
 			if lo == 4 && hi == 8 {
-				if c2, ok := unparen(call.Args[1]).(*ast.CallExpr); ok && w.Callee(c2) == crc && len(c2.Args) == 2 && w.mentions(c2.Args[1], table) {
+				if c2, ok := unparen(w.from(call.Args[1])).(*ast.CallExpr); ok && w.Callee(c2) == crc && len(c2.Args) == 2 && w.mentions(c2.Args[1], table) {
 					if bid, ok := unparen(c2.Args[0]).(*ast.Ident); ok && body != nil && w.Use(bid) == body {
 						crcOK = true
 					}
